@@ -359,10 +359,20 @@ func checkC15(c *Ctx) {
 			SliceLen: func(p *ssa.Parameter) (int64, bool) { return 0, true }, Unroll: true,
 			Event: func(in ssa.Instruction, st *ConcState) string {
 				if r, ok := in.(*ssa.Return); ok && len(r.Results) == 1 && len(st.cfg.stackDepth()) == 0 {
-					if k, isInt, _ := st.FieldOf(r.Results[0], "callerSkip"); isInt {
-						seen = append(seen, k)
-					} else {
-						seen = append(seen, -999)
+					// the setting may live in a struct the handler holds by value; never assigned: the zero value
+					found := false
+					for f, d := range st.FieldsOf(r.Results[0]) {
+						if f == "callerSkip" || strings.HasSuffix(f, ".callerSkip") {
+							found = true
+							if k, ok := parseInt(d); ok {
+								seen = append(seen, k)
+							} else {
+								seen = append(seen, -999)
+							}
+						}
+					}
+					if !found {
+						seen = append(seen, 0)
 					}
 				}
 				return ""
